@@ -5,7 +5,7 @@
    signature" is needed the conclusion carries an explicit collision disjunct. *)
 From Coq Require Import NArith List String Ascii Bool.
 From AV Require Import lib.Str lib.Sha1 lib.TokSplit model.C07_model model.C07_run
-     proofs.C07_msg proofs.C07_parse proofs.C07_verify proofs.C07_manifest proofs.C07_spec.
+     proofs.C07_msg proofs.C07_parse proofs.C07_verify proofs.C07_manifest proofs.C07_spec proofs.C07_examples.
 Import ListNotations.
 Local Open Scope string_scope.
 
@@ -207,6 +207,18 @@ Print Assumptions C07_spec_get_reflects.
 Theorem C07_check_case_eq : forall c, check_case c = code_of (model_b c) (spec_b c).
 Proof. exact check_case_eq. Qed.
 Print Assumptions C07_check_case_eq.
+
+(* The hypotheses above are satisfiable (checked by computation in proofs/C07_examples.v): *)
+Theorem C07_hypotheses_satisfiable :
+  (unsigned_shape ex_loc ex_h /\ "key" <> "" /\ "a@b+c" <> "" /\ (1600000000 < 4294967296)%N /\
+   (1599999999000000000 <= 1600000000 * 1000000000)%N /\
+   verify ex_signed "a@b+c" 1209600000000000 "key" 1599999999000000000 = VOk) /\
+  (signed_shape ex_perturbed ex_h ex_sig "6f5e1000" /\
+   (ex_sig = ex_sig /\ ~ ("key" = "key" /\ ex_h = ex_h /\ "a@b+c" = "a@b+c" /\ "6f5e1000" = "5f5e1000" /\
+                          ttl_hex 1209600000000000 = ttl_hex 1209600000000000)) /\
+   verify ex_perturbed "a@b+c" 1209600000000000 "key" 1599999999000000000 = VInvalid).
+Proof. exact (conj sign_then_verify_instance perturbation_instance). Qed.
+Print Assumptions C07_hypotheses_satisfiable.
 
 Theorem C07_model_meets_spec :
   (forall loc tok ttl key now, spec_verify_k make_sig loc tok ttl key now (verify loc tok ttl key now) = true) /\
